@@ -206,13 +206,14 @@ def run(repo, rep, tier):
                 rep.ob('writers', 'mutable default %s scanned' % key, True)
                 # passing the default on to a constructor that stores it is fine as long as nobody mutates it (checked where stored)
     rep.floor('writers', 'write sites classified', nwrites, 8)
+    from props import _dbcopy
+    from sa.consteval import ConstEnv as _CE
+    _dbcopy.check_private_copy(repo, rep, 'registry', _CE(repo), 'in-place edits made while scanning one target (Terrapin, key-size and modulus notes) reach the master table and every later target')
     for cls_name, modname in (('SSH2_KexDB', 'ssh2_kexdb'), ('SSH1_KexDB', 'ssh1_kexdb')):
         gd = repo.func(modname, cls_name + '.get_db')
         te = repo.func(modname, cls_name + '.thread_exit')
         rep.saw(gd), rep.saw(te)
         stores = [n for n in walk_no_nested(gd) if isinstance(n, ast.Assign) and isinstance(n.targets[0], ast.Subscript) and unparse(n.targets[0].value) == cls_name + '.DB_PER_THREAD']
-        ok = len(stores) == 1 and unparse(stores[0].value) == 'copy.deepcopy(%s.MASTER_DB)' % cls_name
-        rep.check('registry', '%s.get_db registers copy.deepcopy(MASTER_DB)' % cls_name, ok, stores[0] if stores else gd, 'get_db registers %s' % (unparse(stores[0].value) if stores else '?'))
         rets = [r for r in walk_no_nested(gd) if isinstance(r, ast.Return)]
         ok = len(rets) == 1 and unparse(rets[0].value) == '%s.DB_PER_THREAD[calling_thread_id]' % cls_name
         rep.check('registry', '%s.get_db returns the calling thread\'s entry' % cls_name, ok, rets[0] if rets else gd, 'get_db returns %s' % [unparse(r.value) for r in rets])
